@@ -245,7 +245,7 @@ class Ctx:
         rc = 0
         for v, k in listed:
             print(f"KNOWN-FINDING: property={self.pid} {v['clause']} [{v['disc']}] {k.get('what','')}")
-        rdir = os.path.join(VERIF_DIR, "replays", self.pid)
+        rdir = os.path.join(os.environ.get("VERIF_OUT_DIR") or VERIF_DIR, "replays", self.pid)
         for v in new:
             os.makedirs(rdir, exist_ok=True)
             path = os.path.join(rdir, f"{v['clause']}-{short_hash([v['disc'], v['case']])}.json")
@@ -278,8 +278,9 @@ class Ctx:
             "wall_s": round(time.time() - self.t0, 2),
             "violations": nviol,
         }
-        os.makedirs(os.path.join(VERIF_DIR, "evidence"), exist_ok=True)
-        with open(os.path.join(VERIF_DIR, "evidence", f"{self.pid}.json"), "w") as f:
+        odir = os.environ.get("VERIF_OUT_DIR") or VERIF_DIR  # mutant evaluations write their evidence/replays elsewhere
+        os.makedirs(os.path.join(odir, "evidence"), exist_ok=True)
+        with open(os.path.join(odir, "evidence", f"{self.pid}.json"), "w") as f:
             json.dump(json.loads(jdump(evd)), f, indent=1, sort_keys=True)
             f.write("\n")
 
